@@ -176,3 +176,9 @@ pub open spec fn constr_get_ty_ok(st: &State, c: Constructor, idx: usize, own: T
     let declared = match c { Constructor::Struct(sc) => struct_field_spec(st, sc.type_name, idx), Constructor::Enum(ec) => enum_field_spec(st, ec, idx) };
     match declared { Some(d) => t == d, None => t == own }
 }
+
+// ---- fragment lift_if: C08 ("stored, returned, passed .. from any position a function type allows"): an `if` whose lifted branch holds a closure
+// environment has exactly that branch's type — otherwise the value comes out at the pre-lifting function type and is "called" as a Go func
+pub open spec fn if_branches_typed(state: &State, t: LiftExpr, e: LiftExpr, ty: Ty) -> bool {
+    (state.contains_closure(lift_ty(t)) ==> ty == lift_ty(t)) && (state.contains_closure(lift_ty(e)) ==> ty == lift_ty(e))
+}
